@@ -147,6 +147,13 @@ class ReactiveArmorHardenerSimulator(BaseSubscriber):
                     for attr_id in res_attr_ids:
                         item.attrs._override_value_may_change(attr_id)
                 self.__running = False
+                # Results depend on ship resonances, and changes of an
+                # attribute are reported only while its value is calculated:
+                # keep them calculated as long as results are stored
+                ship = self.__fit.ship
+                if ship is not None and ship._is_loaded:
+                    for attr_id in res_attr_ids:
+                        ship.attrs.get(attr_id)
         return reso
 
     def _run_simulation(self):
